@@ -73,6 +73,12 @@ def wl_sign(ctx, config, scale=1.0):
         if r is None: continue
         ctx.ev("schnorr_sign32", "pool:aux%d" % auxk, True, sk, msg, aux or b'-')
         ctx.check(r.ret == 1 and r.b(1) == want, "schnorr_sign32:bytes", "sk=%s msg=%s aux=%s want %s got %r" % (sk.hex(), msg.hex(), aux, want.hex(), r), config)
+        if it % 2 == 0:
+            # the deprecated entry point secp256k1_schnorrsig_sign is the same function of (key, message, aux)
+            ro = ctx.call("schnorr_sign_old", msg, kp, aux, config=config)
+            if ro is not None:
+                ctx.ev("schnorr_sign_old", "pool:aux%d" % auxk, True, sk, msg, aux or b'-')
+                ctx.check(ro.ret == 1 and ro.b(1) == want, "schnorr_sign_old:bytes", "sk=%s msg=%s aux=%s want %s got %r" % (sk.hex(), msg.hex(), aux, want.hex(), ro), config)
     # custom nonce functions
     for it in range(int(ctx.n(300, 6000) * scale)):
         d0 = pools.valid_seckey(rng, 0.2); sk = b32(d0); kp = keypair(ctx, sk, config)
